@@ -17,6 +17,7 @@ Pool == { N("dns", <<"www", "a", "t">>, Lit(3)), N("dns", <<"*", "a", "t">>, <<"
 
 Expected == { N("dns", <<"www", "a", "t">>, Lit(3)), N("dns", <<"x", "a", "t">>, Lit(3)), N("dns", <<"x", "y", "a", "t">>, Lit(4)),
               N("dns", <<"a", "t">>, Lit(2)), N("dns", <<"", "a", "t">>, Lit(3)), N("dns", <<"wx", "a", "t">>, Lit(3)),
+              N("dns", <<"u@x", "a", "t">>, <<"odd", "lit", "lit">>),
               [N("email", <<"a", "t">>, Lit(2)) EXCEPT !.loc = "u", !.locl = "u"], N("ip", <<"1", "2", "3", "4">>, Lit(4)) }
 
 CNs == { N("dns", <<"www", "a", "t">>, Lit(3)), N("dns", <<"*", "a", "t">>, <<"wild", "lit", "lit">>), N("none", <<>>, <<>>) }
@@ -34,5 +35,7 @@ OrderIndependent == Match(scen.x, scen.sans, scen.cn, TRUE) = Match(scen.x, Rev(
 CnOnlyWithoutSan == (Match(scen.x, scen.sans, scen.cn, TRUE) /\ \E k \in 1..Len(scen.sans) : SupportedSan(scen.sans[k]))
                         => Match(scen.x, scen.sans, N("none", <<>>, <<>>), TRUE)
 WildcardOneLabel == (Match(scen.x, scen.sans, scen.cn, TRUE) /\ scen.x.kind = "dns")
-                        => \A i \in 1..Len(scen.x.lab) : scen.x.lab[i] # ""
+                        => /\ \A i \in 1..Len(scen.x.lab) : scen.x.lab[i] # ""
+                           /\ scen.x.lk[1] = "odd" => \/ \E k \in 1..Len(scen.sans) : scen.sans[k].kind = "dns" /\ scen.sans[k].lab = scen.x.lab
+                                                      \/ scen.cn.lab = scen.x.lab        \* only literally
 =============================================================================
